@@ -270,7 +270,26 @@ func Instants(s *Snap, now time.Time) []time.Time {
 // ---- operation generators --------------------------------------------------------------------
 
 // Next draws the next operation of a history given the current observed state.
+// maxWire is the largest amount a message can carry (math.Int is limited to 256 bits; one bit is
+// left for sums).
+var maxWire = new(big.Int).Sub(new(big.Int).Lsh(bigOne, 255), bigOne)
+
+// Next draws the next operation. Amounts that could not be put on the wire (extreme class:
+// products of 2^200-sized quantities and prices) are limited to 2^255-1.
 func (g *Gen) Next(t *rapid.T, w *World, s *Snap) Op {
+	o := g.next(t, w, s)
+	for _, f := range []*string{&o.CoinAmount, &o.SellAmount, &o.MaxBid, &o.Amount} {
+		if len(*f) > 70 { // more than 70 decimal digits: may exceed 255 bits
+			if v, ok := new(big.Int).SetString(*f, 10); ok && v.Cmp(maxWire) > 0 {
+				*f = maxWire.String()
+				g.label("extreme:amount-limited-to-2^255")
+			}
+		}
+	}
+	return o
+}
+
+func (g *Gen) next(t *rapid.T, w *World, s *Snap) Op {
 	type choice struct {
 		kind string
 		wt   int
